@@ -20,14 +20,15 @@ BUDGET_S = {"quick": 600, "thorough": 3000}
 
 SDL = """
 directive @tag on FIELD_DEFINITION
+directive @arg on ARGUMENT_DEFINITION | INPUT_FIELD_DEFINITION
 directive @traced on SCHEMA
 scalar Money
 scalar Counter
 interface Node { id: ID! }
 type Item implements Node { id: ID! price: Money label: String @tag secret: Int @nonIntrospectable old: Int @deprecated(reason: "gone") }
 type Item2 implements Node { id: ID! price: Money label: String @tag }
-input In { m: Money = 1 ms: [Money!] }
-type Query { item: Node item2: Node value: Int count: Counter echo(m: Money): String nodef: Int echol(ms: [Money!]): String echoi(i: In): String }
+input In { m: Money = 1 @arg ms: [Money!] }
+type Query { item: Node item2: Node value: Int count: Counter echo(m: Money @arg): String nodef: Int echol(ms: [Money!]): String echoi(i: In): String }
 type Subscription { tick: Int }
 enum Level { LOW }
 """
@@ -120,6 +121,19 @@ class TagImpl:
         return "%s-tag%d" % (await next_resolver(parent, args, ctx, info), self.i)
 
 
+class ArgImpl:
+    """input-side hooks (argument / input field): each bundle's implementation marks the value with its own number"""
+
+    def __init__(self, i):
+        self.i = i
+
+    async def on_argument_execution(self, directive_args, next_directive, parent_node, argument_definition_node, argument_node, value, ctx):
+        return "%s|arg%d" % (await next_directive(parent_node, argument_definition_node, argument_node, value, ctx), self.i)
+
+    async def on_post_input_coercion(self, directive_args, next_directive, parent_node, value, ctx):
+        return "%s|in%d" % (await next_directive(parent_node, value, ctx), self.i)
+
+
 def register(i, kinds):
     from tartiflette import Directive, Resolver, Scalar, Subscription, TypeResolver
     name = "bundle%d" % i
@@ -168,6 +182,7 @@ def register(i, kinds):
         COUNTER_CHAIN[0] = Scalar("Counter", schema_name=name)(COUNTER_CHAIN[0])
     if "directive" in kinds:
         Directive("tag", schema_name=name)(TagImpl(i))
+        Directive("arg", schema_name=name)(ArgImpl(i))
         Directive("traced", schema_name=name)(TracedImpl(i))
     if "subscription" in kinds:
         @Subscription("Subscription.tick", schema_name=name)
